@@ -918,7 +918,65 @@ def filter_comprehension(ex, st: State, it: V, node, gen):
 
 
 def dict_comprehension(ex, st: State, node):
-    raise Unsupported('dict comprehension')
+    """{k(x): v(x) for x in it [if c(x)]} as an over-approximation: the result is a NEW dict whose content is not
+    modelled (unconstrained keys / values / size >= 0); the condition, key and value expressions are evaluated once on an
+    arbitrary item so that every exception they can raise is a path of the caller. Their heap effects are not kept
+    (recorded as an assumption: element expressions of dict comprehensions are effect-free)."""
+    if len(node.generators) != 1:
+        raise Unsupported('nested dict comprehension')
+    gen = node.generators[0]
+    ex.ctx.assumptions.add('dict comprehension: content of the result not modelled; element expressions effect-free')
+    outs = []
+    for s, it in ex.ev(gen.iter, st):
+        if isinstance(it, Raise):
+            outs.append((s, it))
+            continue
+        if it.kind == 'none':
+            outs.append((s, Raise(ex.mk_exc('TypeError', node))))
+            continue
+        # exceptions of the element expressions, on an arbitrary item
+        probe = s.fork()
+        saved = dict(probe.locals)
+        item = vany(fresh(Val, 'dcomp_item'))
+        try:
+            for s2, sig in ex.assign(gen.target, item, probe):
+                if sig is not None:
+                    outs.append((s2, Raise(sig[1])))
+                    continue
+                states = [s2]
+                for cnode in gen.ifs:
+                    nxt = []
+                    for s3 in states:
+                        for s4, c in ex.ev_cond(cnode, s3):
+                            if isinstance(c, Raise):
+                                outs.append((s4, c))
+                            else:
+                                nxt.append(s4)
+                    states = nxt
+                for part in (node.key, node.value):
+                    nxt = []
+                    for s3 in states:
+                        for s4, v in ex.ev(part, s3):
+                            if isinstance(v, Raise):
+                                outs.append((s4, v))
+                            else:
+                                nxt.append(s4)
+                    states = nxt
+        except Unsupported:
+            # element expression outside the modelled subset: it may raise anything
+            e = s.fork()
+            outs.append((e, Raise(ex.mk_exc('*', 'dict comprehension element'))))
+        for nm in list(s.locals):
+            if nm not in saved:
+                del s.locals[nm]
+        d = s.alloc('dict')
+        dk, dn = fresh(z3.ArraySort(Val, BoolS), 'dcomp_keys'), fresh(IntS, 'dcomp_n')
+        s.arr['DK'] = z3.Store(s.get_arr('DK'), d.e, dk)
+        s.arr['DN'] = z3.Store(s.get_arr('DN'), d.e, dn)
+        s.arr['DV'] = z3.Store(s.get_arr('DV'), d.e, fresh(z3.ArraySort(Val, Val), 'dcomp_vals'))
+        s.assume(dn >= 0)
+        outs.append((s, d))
+    return outs
 
 
 def py_str(ex, st: State, v: V) -> V:
